@@ -32,17 +32,18 @@ def is_exitstack(v):
 class ObjectDomain(EffectDomain):
     list_outparams = True
     enter_returns_self = True
+    IDENTITY_TAGS = EffectDomain.IDENTITY_TAGS + ("inst", "classref", "ctorref", "excclass", "func", "method", "boundmethod")
 
     # -- values ---------------------------------------------------------------------------------
     def truth(self, value):
         if is_inst(value):
             return "T" if not self._has_method(value[2], "__bool__") and not self._has_method(value[2], "__len__") else "TF"
-        if is_exitstack(value) or (isinstance(value, tuple) and value[:1] and value[0] in CALLABLE_TAGS):
+        if is_exitstack(value) or (isinstance(value, tuple) and value[:1] and value[0] in CALLABLE_TAGS + ("excclass",)):
             return "T"
         return super().truth(value)
 
     def is_none(self, value):
-        if is_inst(value) or is_exitstack(value) or (isinstance(value, tuple) and value[:1] and value[0] in CALLABLE_TAGS):
+        if is_inst(value) or is_exitstack(value) or (isinstance(value, tuple) and value[:1] and value[0] in CALLABLE_TAGS + ("excclass",)):
             return "F"
         return super().is_none(value)
 
@@ -190,6 +191,12 @@ class ObjectDomain(EffectDomain):
         return [val(TOP, st)]
 
     _LITERAL_NODES = (ast.Dict, ast.Tuple, ast.List, ast.Set)
+    _PURE_CONSTRUCTORS = ("attrgetter", "itemgetter", "methodcaller", "partial", "frozenset", "tuple")
+
+    @classmethod
+    def _pure_constructor(cls, expr):
+        return isinstance(expr, ast.Call) and (dotted(expr.func) or "").split(".")[-1] in cls._PURE_CONSTRUCTORS and all(
+            isinstance(a, (ast.Constant, ast.Name, ast.Attribute, ast.Tuple, ast.List)) for a in expr.args) and not expr.keywords
 
     def _module_table(self, interp, name, st, fr):
         """A module-level name bound exactly once, at module level, to a literal table (dict / tuple / list / set whose
@@ -211,7 +218,7 @@ class ObjectDomain(EffectDomain):
                 elif isinstance(n, ast.Global) and name in n.names:
                     found.append((n, None))
             ok = len(found) == 1 and isinstance(found[0][0], (ast.Assign, ast.AnnAssign)) and isinstance(found[0][1], ast.Name) and getattr(found[0][0], "_func", None) is None \
-                and getattr(found[0][0], "_class", None) is None and isinstance(found[0][0].value, self._LITERAL_NODES)
+                and getattr(found[0][0], "_class", None) is None and (isinstance(found[0][0].value, self._LITERAL_NODES) or self._pure_constructor(found[0][0].value))
             cache[name] = found[0][0].value if ok else None
         expr = cache[name]
         if expr is None:
@@ -265,10 +272,37 @@ class ObjectDomain(EffectDomain):
             ci = self._class_of_expr(ast.Name(id=chain[0], ctx=ast.Load()), fr)
             if ci is not None:
                 return ("classref", ci)
+            if self._is_exception_class(chain[0], fr):
+                return ("excclass", chain[0])
         return None
 
     def _is_method_value(self, d):
         return False
+
+    BUILTIN_EXCEPTIONS = ("BaseException", "Exception", "KeyboardInterrupt", "SystemExit", "GeneratorExit", "ValueError", "TypeError", "KeyError", "IndexError",
+                          "AttributeError", "RuntimeError", "StopIteration", "AssertionError", "OSError", "IOError", "NotImplementedError", "LookupError")
+
+    def _is_exception_class(self, name, fr):
+        if name in self.BUILTIN_EXCEPTIONS:
+            return True
+        mod = getattr(fr.func, "_module", None)
+        ci = self.classes.lookup(mod, name) if mod is not None else None
+        return ci is not None and (self.classes.has_base_named(ci, "BaseException") or self.classes.has_base_named(ci, "Exception"))
+
+    def match_dynamic(self, interp, handler_type, excvalue, st, fr):
+        """`except <expression>:` -- the expression is evaluated; a tuple of exception classes decides by name."""
+        got = [r for r in interp.eval(handler_type, st, fr) if r.kind == "val"]
+        if len(got) != 1:
+            return None
+        v = got[0].value
+        cand = list(v[1:]) if isinstance(v, tuple) and v[:1] == ("tuple",) else [v]
+        if not cand or not all(isinstance(c, tuple) and c[:1] in (("excclass",), ("ctorref",)) for c in cand):
+            return None
+        cand = [("excclass", c[1].split(".")[-1]) for c in cand]
+        if not (isinstance(excvalue, tuple) and len(excvalue) >= 2 and excvalue[0] == "exc" and isinstance(excvalue[1], str)):
+            return "maybe"
+        verdict = self._exc_isinstance(excvalue[1], [c[1] for c in cand], fr)
+        return "maybe" if verdict is None else ("yes" if verdict else "no")
 
     @staticmethod
     def _lookup_function(name, fr):
@@ -495,6 +529,57 @@ class ObjectDomain(EffectDomain):
             return self.apply_method(interp, fn[1], pos, kw, st, fr)
         return [val(TOP, st)]
 
+    def _param_names(self, fn, fr):
+        """Positional parameter names of an abstract callable (without self), or None."""
+        tag = fn[0] if isinstance(fn, tuple) and fn else None
+        node, skip = None, 0
+        if tag == "func":
+            node = fn[1]
+        elif tag == "method":
+            root = getattr(self, "root_class", None) or fr.receiver
+            node = self._method(root, fn[1]) if root is not None else None
+            skip = 0 if node is None or "staticmethod" in self._decorators(node) else 1
+        elif tag == "boundmethod":
+            node = self._method(fn[1][2], fn[2])
+            skip = 0 if node is None or "staticmethod" in self._decorators(node) else 1
+        elif tag == "partial":
+            inner = self._param_names(fn[1], fr)
+            return inner[len(fn[2]):] if inner is not None else None
+        if node is None:
+            return None
+        return [p.arg for p in node.args.posonlyargs + node.args.args][skip:]
+
+    def apply_refs(self, interp, fn, pos, kw, st, fr):
+        """apply() with arguments that may be ("ref", key) aliases of a caller's list / dict: the current value is
+        handed in, and what the callee left in the parameter is written back."""
+        names = self._param_names(fn, fr)
+        pos_refs = {i: v[1] for i, v in enumerate(pos) if isinstance(v, tuple) and len(v) == 2 and v[0] == "ref"}
+        kw_refs = {k: v[1] for k, v in kw if isinstance(v, tuple) and len(v) == 2 and v[0] == "ref"}
+        if not pos_refs and not kw_refs:
+            return self.apply(interp, fn, pos, kw, st, fr)
+        pos2 = [st.get(v[1], TOP) if i in pos_refs else v for i, v in enumerate(pos)]
+        kw2 = [(k, st.get(v[1], TOP) if k in kw_refs else v) for k, v in kw]
+        out = []
+        for r in self.apply(interp, fn, pos2, kw2, st, fr):
+            s2 = r.state
+            for i, key in pos_refs.items():
+                if names is not None and i < len(names) and s2.has("outparam." + names[i]):
+                    s2 = s2.set(key, s2.get("outparam." + names[i]))
+            for k, key in kw_refs.items():
+                if s2.has("outparam." + k):
+                    s2 = s2.set(key, s2.get("outparam." + k))
+            if any(k_.startswith("outparam.") for k_, _ in s2.items):
+                s2 = s2.drop_prefix("outparam.")
+            out.append(type(r)(r.kind, r.value, s2))
+        return out
+
+    def ref_or_value(self, interp, expr, value, st, fr):
+        """("ref", key) when ``expr`` names a variable (or attribute kept in the state) that holds a list / dict, else the value."""
+        key = interp._key_of(expr, fr, st) if isinstance(expr, (ast.Name, ast.Attribute)) else None
+        if key is not None and st.has(key) and isinstance(value, tuple) and value[:1] in (("tuple",), ("kwdict",)):
+            return ("ref", key)
+        return value
+
     def _getattr_path(self, interp, obj, path, st, fr):
         cur = [val(obj, st)]
         for attr in path.split("."):
@@ -637,6 +722,22 @@ class ObjectDomain(EffectDomain):
                     out.append(val(("itemgetter", r.value), r.state))
                 else:
                     out.append(val(TOP, r.state))
+            return out
+        short = d.split(".")[-1]
+        if d in ("itertools.compress", "compress", "itertools.chain", "chain", "itertools.chain.from_iterable", "chain.from_iterable", "itertools.filterfalse", "filterfalse", "filter",
+                 "itertools.dropwhile", "dropwhile", "itertools.takewhile", "takewhile") and call.args and not call.keywords and not any(isinstance(a, ast.Starred) for a in call.args):
+            out = []
+            for r in interp.eval_list(list(call.args), st, fr):
+                if r.kind == "exc":
+                    out.append(r)
+                    continue
+                out.extend(self._itertool(interp, short if short != "from_iterable" else "chain.from_iterable", list(r.value), r.state, fr))
+            return out
+        if d in ("deque", "collections.deque") and call.args:
+            # deque(iterable, maxlen=0): consumes the iterable (for its effects)
+            out = []
+            for r in interp._forced(interp.eval(call.args[0], st, fr), fr):
+                out.append(r if r.kind == "exc" else val(TOP, r.state))
             return out
         if d in ("ExitStack", "contextlib.ExitStack") and not call.args and not call.keywords:
             n = st.get("ev.inst", 0)
@@ -787,6 +888,82 @@ class ObjectDomain(EffectDomain):
                                 out.extend(self.apply(interp, r.value, pos, kw, s2, fr))
                     return out
         return super().call(interp, call, st, fr)
+
+    def _elements(self, interp, value, st, fr):
+        """Exact elements of a sequence value, forcing lazy ones -> list of (elements or None, state)."""
+        hook = getattr(self, "force_sequence", None)
+        got = hook(interp, value, st, fr) if hook is not None else None
+        if got is not None:
+            return [(interp._exact_elements(r.value) if r.kind == "val" else None, r.state) for r in got]
+        return [(interp._exact_elements(value), st)]
+
+    def _itertool(self, interp, name, args, st, fr):
+        out = []
+        if name == "compress" and len(args) == 2:
+            for data, s1 in self._elements(interp, args[0], st, fr):
+                for sel, s2 in self._elements(interp, args[1], s1, fr):
+                    if data is None or sel is None or any(self.truth(x) not in ("T", "F") for x in sel):
+                        out.append(val(TOP, s2))
+                    else:
+                        out.append(val(("tuple",) + tuple(dv for dv, sv in zip(data, sel) if self.truth(sv) == "T"), s2))
+            return out
+        if name in ("chain", "chain.from_iterable"):
+            parts = args
+            if name == "chain.from_iterable":
+                got = self._elements(interp, args[0], st, fr)
+                if len(got) != 1 or got[0][0] is None:
+                    return [val(TOP, st)]
+                parts, st = got[0]
+            cur = [((), st)]
+            for p in parts:
+                nxt = []
+                for acc, s1 in cur:
+                    for els, s2 in self._elements(interp, p, s1, fr):
+                        nxt.append((None if acc is None or els is None else acc + tuple(els), s2))
+                cur = nxt
+            return [val(TOP if acc is None else ("tuple",) + acc, s1) for acc, s1 in cur]
+        if name in ("filter", "filterfalse", "dropwhile", "takewhile") and len(args) == 2:
+            pred, seq = args
+            for els, s1 in self._elements(interp, seq, st, fr):
+                if els is None:
+                    out.append(val(TOP, s1))
+                    continue
+                cur = [((), s1, "taking" if name != "dropwhile" else "dropping")]
+                for el in els:
+                    nxt = []
+                    for acc, s2, mode in cur:
+                        if acc is None or mode == "done":
+                            nxt.append((acc, s2, mode))
+                            continue
+                        if mode == "passing":
+                            nxt.append((acc + (el,), s2, mode))
+                            continue
+                        results = [val({"T": TRUE, "F": FALSE}.get(self.truth(el), ("bool",)), s2)] if pred == NONE else self.apply(interp, pred, [el], [], s2, fr)
+                        for r in results:
+                            if r.kind == "exc":
+                                out.append(r)
+                                continue
+                            t = self.truth(r.value)
+                            if t not in ("T", "F"):
+                                nxt.append((None, r.state, mode))
+                            elif name == "filter":
+                                nxt.append((acc + (el,) if t == "T" else acc, r.state, mode))
+                            elif name == "filterfalse":
+                                nxt.append((acc + (el,) if t == "F" else acc, r.state, mode))
+                            elif name == "takewhile":
+                                nxt.append((acc + (el,), r.state, mode) if t == "T" else (acc, r.state, "done"))
+                            else:   # dropwhile
+                                nxt.append((acc, r.state, mode) if t == "T" else (acc + (el,), r.state, "passing"))
+                    cur = nxt
+                out.extend(val(TOP if acc is None else ("tuple",) + acc, s2) for acc, s2, _ in cur)
+            return out
+        return [val(TOP, st)]
+
+    def _apply(self, interp, fn, arg, st, fr):
+        """One-argument application used by lazy maps: any callable of this model."""
+        if isinstance(fn, tuple) and fn[:1] and fn[0] in CALLABLE_TAGS + ("wobj", "userfn") and not (fn[0] == "methodcaller" and isinstance(arg, tuple) and arg[:1] == ("wobj",)):
+            return self.apply(interp, fn, [arg], [], st, fr)
+        return super()._apply(interp, fn, arg, st, fr)
 
     def call_on_value(self, interp, receiver, call, st, fr):
         name = call.func.attr
